@@ -283,21 +283,18 @@ def run_grader(site, spec, samples, dict_order, rec_names, user_constants=None, 
     """
     observation point G: answer and student input are both rec(<all names>); the recording function sees the
     values of one sample per call.  spec['consts'] lists the constants that are passed to rec.
+    Every execution builds a fresh grader, so executions are independent of each other.
     """
     cls = M.classify(cls_spec or spec)
     log = []
     rec = Recorder(len(rec_names), log, 'rec')
     expr = 'rec(%s)' % ','.join(rec_names)
-    try:
-        g = make_grader(spec, samples, dict_order, expr, {'rec': rec}, user_constants=user_constants,
-                        suppress=suppress, wrong_depends=wrong_depends, klass=klass)
-    except Exception as e:      # noqa
-        v = judge_error(site + '/construct', cls, e)
-        return Result('construct:' + err_bucket(e), True, v, calls=1)
 
     def body(ch):
         del log[:]
         try:
+            g = make_grader(spec, samples, dict_order, expr, {'rec': rec}, user_constants=user_constants,
+                            suppress=suppress, wrong_depends=wrong_depends, klass=klass)
             res = g(None, expr)
         except Exception as e:      # noqa
             return ('err', e)
@@ -329,10 +326,11 @@ def run_grader(site, spec, samples, dict_order, rec_names, user_constants=None, 
 
 
 def run_mid(site, spec, samples, dict_order, exprs, numbered=(), extra_sets=None, open_names=(),
-            user_constants=None, removed=(), suppress=False, classify_extra=None, base_sets=None):
+            user_constants=None, removed=(), suppress=False, classify_extra=None, base_sets=None, repeat=1):
     """
     observation point M: gen_var_and_func_samples(student_input, sibling_dict, comparer_params) of a real
-    FormulaGrader.  Constants expected: defaults (minus removed) + user constants, unless shadowed.
+    FormulaGrader (fresh per execution; called `repeat` times in a row on the same grader, every return value
+    is judged).  Constants expected: defaults (minus removed) + user constants, unless shadowed.
     """
     consts = dict(DEFAULT_CONSTS)
     uc = dict(user_constants or {})
@@ -345,31 +343,34 @@ def run_mid(site, spec, samples, dict_order, exprs, numbered=(), extra_sets=None
     names_present = set(extra_sets or {})
     cls = M.classify(full, names_present if classify_extra is None else classify_extra)
     open_cls = bool(open_names)
-    try:
-        g = make_grader(spec, samples, dict_order, '0', {}, numbered=numbered, user_constants=uc, suppress=suppress,
-                        extra_sets=base_sets)
-    except Exception as e:      # noqa
-        v = None if open_cls else judge_error(site + '/construct', cls, e)
-        return Result('construct:' + err_bucket(e), True, v, calls=1)
     student, sib, params = exprs
 
     def body(ch):
+        outs = []
         try:
-            out = g.gen_var_and_func_samples(student, dict(sib), list(params))
+            g = make_grader(spec, samples, dict_order, '0', {}, numbered=numbered, user_constants=uc,
+                            suppress=suppress, extra_sets=base_sets)
+            for _ in range(repeat):
+                outs.append(g.gen_var_and_func_samples(student, dict(sib), list(params)))
         except Exception as e:      # noqa
-            return ('err', e)
-        return ('ok', out)
+            return ('err', e, len(outs))
+        return ('ok', outs)
 
     def judge(out):
         if out[0] == 'err':
             if open_cls and is_config_error(out[1]):
                 return None
-            return judge_error(site, cls if not open_cls else 'ok', out[1])
-        pair = out[1]
-        if not (isinstance(pair, tuple) and len(pair) == 2):
-            return viol('%s:bad-return' % site, 'expected (var_samples, func_samples)', None, repr(pair))
-        v = judge_no_error(site, cls, [sorted(d) for d in pair[0]])
-        return v or judge_dicts(site, full, samples, pair[0], extra_sets, open_names)
+            where = site if out[2] == 0 else site + '/repeated-call'
+            return judge_error(where, cls if not open_cls else 'ok', out[1])
+        for k, pair in enumerate(out[1]):
+            where = site if k == 0 else site + '/repeated-call'
+            if not (isinstance(pair, tuple) and len(pair) == 2):
+                return viol('%s:bad-return' % where, 'expected (var_samples, func_samples)', None, repr(pair))
+            v = judge_no_error(where, cls, [sorted(d) for d in pair[0]])
+            v = v or judge_dicts(where, full, samples, pair[0], extra_sets, open_names)
+            if v:
+                return v
+        return None
 
     return product_check(body, judge, True, 'values:%ddep' % len(spec['forms']))
 
@@ -726,7 +727,7 @@ class NumberedFamily(C13Family):
             'every ordered pair of indices from %s; d = 1+2*x [+3*instance]: no instance / the answer\'s / the '
             'student\'s / n_{7} that occurs in no expression (left open: ConfigError or consistent value); a plain '
             'variable literally named like the answer\'s or the student\'s instance with its own set {17,19} (must '
-            'take priority); 1 sample in both declaration orders, 2 samples in one.  Observed through the two recording '
+            'take priority); 1 sample in both declaration orders (the same grader is then called twice in a row and both calls are judged), 2 samples in one.  Observed through the two recording '
             'functions (G) and at gen_var_and_func_samples (M: complete key set incl. default constants); full RNG '
             'product' % INDICES)
 
@@ -752,34 +753,30 @@ class NumberedFamily(C13Family):
     def check_case(self, case):
         spec, na, nb, extra_sets, open_names, samples, plain = numbered_setup(case)
         ans, stu = 'recA(x,d,%s)' % na, 'recS(x,d,%s)' % nb
+        repeat = 2 if samples == 1 else 1
         # ---- M: full dictionaries
         r1 = run_mid('numbered/mid', spec, samples, None, (stu, {}, [ans]), numbered=['n'],
                      extra_sets=extra_sets, open_names=open_names, classify_extra=set(extra_sets) | set(open_names),
-                     user_constants={'k': 7}, base_sets={'n': NSET})
+                     user_constants={'k': 7}, base_sets={'n': NSET}, repeat=repeat)
         # ---- G: what the recording functions see
         log = []
         fa, fs = Recorder(3, log, 'A'), Recorder(3, log, 'S')
-        try:
-            g = make_grader(spec, samples, None, ans, {'recA': fa, 'recS': fs}, numbered=['n'],
-                            extra_sets={'n': NSET})
-        except Exception as e:      # noqa
-            v = None if open_names and is_config_error(e) else judge_error('numbered/construct', 'ok', e)
-            return self.merge(r1, Result('construct:' + err_bucket(e), True, v, calls=1))
 
         def body(ch):
             del log[:]
+            done = []
             try:
-                res = g(None, stu)
+                g = make_grader(spec, samples, None, ans, {'recA': fa, 'recS': fs}, numbered=['n'],
+                                extra_sets={'n': NSET})
+                for _ in range(repeat):
+                    n0 = len(log)
+                    res = g(None, stu)
+                    done.append((res, list(log[n0:])))
             except Exception as e:      # noqa
-                return ('err', e)
-            return ('ok', res, list(log))
+                return ('err', e, len(done))
+            return ('ok', done)
 
-        def judge(out):
-            if out[0] == 'err':
-                if open_names and is_config_error(out[1]):
-                    return None
-                return judge_error('numbered', 'ok', out[1])
-            _, res, calls = out
+        def judge_call(site, res, calls):
             a_calls = [c[1] for c in calls if c[0] == 'A']
             s_calls = [c[1] for c in calls if c[0] == 'S']
             if not a_calls or not s_calls:
@@ -789,9 +786,9 @@ class NumberedFamily(C13Family):
                 # k-th evaluation of the answer and of the student input belong to the k-th sample
                 for ca, cs in zip(a_calls, s_calls):
                     da, ds = dict(zip(['x', 'd', na], ca)), dict(zip(['x', 'd', nb], cs))
-                    for nm in set(da) & set(ds):
+                    for nm in sorted(set(da) & set(ds)):
                         if not M.close(da[nm], ds[nm]):
-                            return viol('numbered:answer-and-student-see-different-samples',
+                            return viol('%s:answer-and-student-see-different-samples' % site,
                                         '%s differs between the evaluation of the answer and of the student input '
                                         'within one sample' % nm, da, ds)
                     merged = dict(da)
@@ -807,11 +804,22 @@ class NumberedFamily(C13Family):
                 bad = M.judge_sample(sp, d, present, absent)
                 if bad:
                     kind, msg, exp, obs = bad
-                    return viol('numbered:%s' % kind, 'values seen by the author functions: %s' % msg, exp,
+                    return viol('%s:%s' % (site, kind), 'values seen by the author functions: %s' % msg, exp,
                                 {'sample': d, 'value': obs})
             if na == nb and not (isinstance(res, dict) and res.get('ok') is True):
-                return viol('numbered:identical-input-not-correct',
+                return viol('%s:identical-input-not-correct' % site,
                             'student input with the same arguments as the answer was not graded correct', True, res)
+            return None
+
+        def judge(out):
+            if out[0] == 'err':
+                if open_names and is_config_error(out[1]):
+                    return None
+                return judge_error('numbered' if out[2] == 0 else 'numbered/repeated-call', 'ok', out[1])
+            for k, (res, calls) in enumerate(out[1]):
+                v = judge_call('numbered' if k == 0 else 'numbered/repeated-call', res, calls)
+                if v:
+                    return v
             return None
 
         r2 = product_check(body, judge, True, 'graded')
@@ -970,16 +978,13 @@ class SiblingFamily(C13Family):
         log = []
         rec = Recorder(len(rec_names), log, 'rec')
         last = 'rec(%s)' % ','.join(rec_names)
-        try:
-            subgrader = make_grader(sub, samples, None, '0', {'rec': rec}, user_constants={'k': 7})
-            lg = ListGrader(answers=['x'] * (m - 1) + [last], ordered=True, subgraders=subgrader)
-        except Exception as e:      # noqa
-            return Result('construct:' + err_bucket(e), True, judge_error('sibling/construct', 'ok', e), calls=1)
         student = [M.formula_str(SIB_PALETTE[k]) for k in inputs] + ['5']
 
         def body(ch):
             del log[:]
             try:
+                subgrader = make_grader(sub, samples, None, '0', {'rec': rec}, user_constants={'k': 7})
+                lg = ListGrader(answers=['x'] * (m - 1) + [last], ordered=True, subgraders=subgrader)
                 res = lg(None, list(student))
             except Exception as e:      # noqa
                 return ('err', e)
